@@ -596,6 +596,7 @@ fn map_text(s: &Screen) -> Option<String> {
 
 #[allow(clippy::too_many_lines)]
 pub fn execute(sc: &K18) -> Outcome {
+    let _clock = crate::vclock::Guard;
     let mut out = Outcome::default();
     let child = compile(sc);
     let cli = sc.gpsd_cli_offset.map(|(a, b)| (sc.rx.0 + a, sc.rx.1 + b)).unwrap_or(sc.rx);
@@ -675,6 +676,7 @@ pub fn execute(sc: &K18) -> Outcome {
                 if *segs > 1 {
                     out.inconclusive = true;
                 }
+                crate::vclock::set(*t * 1000);
                 rsadsb_common::verif_clock::set(vt_time(*t));
                 delivered_lines = stream[..(*total).min(stream.len())].iter().filter(|&&b| b == b'\n').count();
                 while let Some(nl) = stream[consumed..(*total).min(stream.len())].iter().position(|&b| b == b'\n') {
@@ -729,6 +731,7 @@ pub fn execute(sc: &K18) -> Outcome {
                 evs.push(json.clone());
             }
             LogEv::Frame { t, k, .. } => {
+                crate::vclock::set(*t * 1000);
                 rsadsb_common::verif_clock::set(vt_time(*t));
                 let before = tr.len();
                 tr.prune(sc.filter_time);
